@@ -226,7 +226,7 @@ theorem prepass_right_lang (wf : d.WF) {q : σ} (hq : q ∈ d.minifyKept) (w : L
   induction w generalizing q with
   | nil => simp [mfin, isFinal, List.mem_filter, hq]
   | cons a w ih =>
-    rw [mrun_cons, run_cons]
+    rw [mrun_cons_eq, run_cons]
     cases hs : d.step? (some q) a with
     | none =>
       have hs' : alookup a ((alookup q d.trans).getD []) = none := hs
